@@ -1117,6 +1117,11 @@ def run(ctx):
             continue
         seen.add(tree)
         c, info = check_tree(ctx, mod, tabs, tree, lost, kind)
+        # quick tier: the kernel-evaluated model sees 2 of 3 trees of the four largest families (every tree still goes
+        # through all oracles, incl. the Python twin of the model); thorough tier: all of them
+        if ctx.tier == "quick" and kind in ("exh1:d", "random", "malformed", "seq3") and len(seen) % 3 == 0:
+            ctx.count("not-sent-to-coq(quick)")
+            continue
         coq_cases.append(c)
         infos.append(info)
     # omml_to_latex(None)
@@ -1151,7 +1156,7 @@ def run(ctx):
     ctx.extra["corr_cases"] = len(coq_cases)
     # fail closed when the frame probe no longer recognises the recursive worker (depth part of the correspondence)
     ctx.obligation("inventory:recursive-worker-frames-observed(depth correspondence active)",
-                   DEPTHS[0] * 2 > len(coq_cases), f"worker frames seen in {DEPTHS[0]} of {len(coq_cases)} conversions")
+                   DEPTHS[0] > len(coq_cases) // 2, f"worker frames seen in {DEPTHS[0]} of {len(coq_cases)} conversions")
     ctx.extra["depth_measured_cases"] = DEPTHS[0]
 
     entry_points(ctx, mod)
